@@ -21,19 +21,34 @@ def prio_of(name):
     return 100 - int(name[1:]) if name[1:].isdigit() else 0
 
 
-def make_inputs(d, R):
-    """tiny graph, R reads r1..rR aligned to >s1>s2 (each with its own substitution)"""
+def make_inputs(d, R, long_at=0):
+    """tiny graph, R reads aligned to >s1>s2 (each with its own substitution); long_at = k > 0: the k-th read is an
+    ultra-long one (60,001 aligned bases on a third node), which realign passes through without realigning"""
     os.makedirs(d, exist_ok=True)
     gfa = os.path.join(d, "g.gfa")
+    big = ""
+    if long_at:
+        import random as _r
+
+        rr = _r.Random(7)
+        big = "".join(rr.choice("ACGT") for _ in range(60010))
     with open(gfa, "w") as f:
         f.write(f"S\ts1\t{NODE1}\tLN:i:{len(NODE1)}\tSN:Z:chr1\tSO:i:0\tSR:i:0\n")
         f.write(f"S\ts2\t{NODE2}\tLN:i:{len(NODE2)}\tSN:Z:chr1\tSO:i:{len(NODE1)}\tSR:i:0\n")
         f.write("L\ts1\t+\ts2\t+\t0M\n")
+        if long_at:
+            f.write(f"S\ts3\t{big}\tLN:i:{len(big)}\tSN:Z:chr1\tSO:i:{len(NODE1) + len(NODE2)}\tSR:i:0\n")
+            f.write("L\ts2\t+\ts3\t+\t0M\n")
     path = NODE1 + NODE2
     fa = os.path.join(d, "reads.fa")
     gaf = os.path.join(d, "a.gaf")
     with open(fa, "w") as f, open(gaf, "w") as g:
         for i in range(1, R + 1):
+            if i == long_at:
+                seq = big[3:60004]
+                f.write(f">{RN(i)}\n{seq}\n")
+                g.write(f"{RN(i)}\t{len(seq)}\t0\t{len(seq)}\t+\t>s3\t{len(big)}\t3\t60004\t{len(seq)}\t{len(seq)}\t60\ttp:A:P\tcg:Z:{len(seq)}=\n")
+                continue
             ps, pe = i % 5, len(path) - (i % 7)
             seq = list(path[ps:pe])
             k = (3 * i) % len(seq)
@@ -175,7 +190,7 @@ def judge_outcomes(ctx, outcomes, kind):
 def explore_config(ctx, k, n_random_walks, n_random_sched, max_tour=None):
     """TLC on the spec (design check), tour + random walks replayed in lock-step, random schedules
     validated by TLC. Returns nothing; records violations in ctx."""
-    inputs = make_inputs(os.path.join(ctx.scratch, f"in_{k['R']}"), k["R"])
+    inputs = make_inputs(os.path.join(ctx.scratch, f"in_{k['R']}_{k.get('long', 0)}"), k["R"], k.get("long", 0))
     ref, err = reference_output(*inputs, k["B"], ctx.scratch)
     if ref is None:
         ctx.violation("single_core_run_failed", {"cfg": k, "stderr": err})
